@@ -523,6 +523,13 @@ def check(repo, rep):
                        'inner read reached under %s' % [(show(c[0])[:60], c[1]) for c in l.conds[:e[4]]])
             # counter update never under-counts what was returned
             ups = [e for e in l.effects if e[0] == 'store' and e[1] == ('attr', ('self',), cnt)]
+            # ... and a read that fails (the source raises: not open, a transient error) is not charged: the budget is updated after
+            # the inner read has returned, never before it
+            if reads and ups:
+                ir_ = min(i_ for i_, e_ in enumerate(l.effects) if e_ is reads[0])
+                early = [u for i_, u in enumerate(l.effects) if u in ups and i_ < ir_]
+                rep.ob('the limiter charges its budget after the inner read has returned (a read that raises consumes nothing)', not early, W(early[0][3]) if early else W(l.node), '_Limiter.read:charge-after-read',
+                       'the counter is updated (%s) before the source is read' % (show(early[0][2])[:60] if early else ''))
             is_none_path = l.value is not None and any((g_ := norm_cmp(c[0], c[1])) and g_[0] == 'is' and g_[1] == l.value and g_[2] == ('c', None) for c in l.conds) or any(c[0] == l.value and not c[1] for c in l.conds)
             if l.outcome == 'return' and l.value != ('c', None) and not is_none_path:
                 okup = False
